@@ -11,3 +11,4 @@ def run(ck):
     gradient.r6_transform_column(ck, P)
     gradient.r7_projective_split(ck, P)
     gradient.r8_position_advances(ck, P)
+    gradient.r9_radial_roots(ck, P)
